@@ -453,10 +453,22 @@ def gen_match_world(rng: random.Random, n_steps: int) -> Dict[str, Any]:
         preload.append({"id": f"r{k+1}", "o": o, "d": d, "dep": 0, "pax": 1, "fleet": rng.choice(["fa", "fb"]) if use_fleets else None})
     states = rng.choice([["Idle", "Repositioning"], ["Idle", "Repositioning"], ["idle", "repositioning", "reservebase", "chargingbase", "dispatchbase"],
                          ["Idle"]])
-    w = {"name": "match", "dt": dt, "start": 0, "end": dt * n_steps, "cancel": 600, "vehicles": vehicles, "requests": [],
+    later = []
+    disp: Dict[str, Any] = {"valid_dispatch_states": states}
+    if len(states) > 2:
+        # parked and base-charging vehicles are dispatchable in this configuration: let idle vehicles go home quickly and
+        # let more requests arrive once they are parked
+        disp["idle_time_out_seconds"] = 60
+        for k in range(rng.randint(2, 5)):
+            o = lattice[rng.randrange(len(lattice))]
+            d = lattice[rng.randrange(len(lattice))]
+            later.append({"id": f"l{k+1}", "o": o, "d": d, "dep": dt * rng.randint(6, 13), "pax": 1,
+                          "fleet": rng.choice(["fa", "fb"]) if use_fleets else None})
+        later.sort(key=lambda r: (r["dep"], r["id"]))
+    w = {"name": "match", "dt": dt, "start": 0, "end": dt * n_steps, "cancel": 600, "vehicles": vehicles, "requests": later,
          "preload": preload, "stations": stations, "bases": bases, "focus": "match",
          "schedules": [("on", "00:00:00", "23:00:00"), ("off", "23:30:00", "23:40:00")],
-         "dispatcher": {"valid_dispatch_states": states}}
+         "dispatcher": disp}
     if use_fleets:
         w["fleets"] = fl
     return w
